@@ -122,3 +122,8 @@ pub fn t_transpose(x: Option<u128>, lim: u128) -> Result<Option<u128>, u8> {
     x.as_ref().map(|v| -> Result<u128, u8> { if *v > lim { Err(3u8) } else { Ok(*v + 1) } }).transpose()
 }
 pub fn t_cloned(h: &H) -> u128 { h.slot.as_ref().cloned().unwrap_or(7) }
+
+// a function item passed as a value to an adaptor and to a helper taking impl Fn
+fn apply2(f: impl Fn(u128) -> u128, x: u128) -> u128 { f(f(x)) }
+fn inc(x: u128) -> u128 { x + 1 }
+pub fn t_fn_item(x: u128, v: Vec<String>) -> (u128, Vec<String>) { (apply2(inc, x), v.iter().map(String::to_owned).collect()) }
